@@ -383,6 +383,26 @@ template <class Mesh> struct HistRun {
     }
 
     // ------------------------------------------------------------ ops
+    // a cell that contains both halffaces of one face ("pillow"): the smallest closed surface; C09 names it explicitly
+    void op_add_pillow(R &r, const Op &q) {
+        if (KID != 0) return;
+        std::vector<int> cand;
+        for (int f : r.m.live_uids(BF)) if (!r.face_has_cell(f) && loop_closed(r, r.m.F[f])) cand.push_back(f);
+        int f = -1;
+        if (!cand.empty() && (q.a[1] & 1)) f = pick(cand, q.a[0]);
+        else {
+            int need = 3 + q.a[2] % 2;
+            if (r.m.n(BV) + need > (int)plan.c("maxv", 24) + 8) return;
+            std::vector<int> cyc;
+            for (int i = 0; i < need; ++i) cyc.push_back(w_add_vertex(r, true));
+            f = w_add_face_v(r, cyc);
+            if (f < 0) return;
+        }
+        std::vector<int> hfs = (q.a[3] & 1) ? std::vector<int>{2 * f, 2 * f + 1} : std::vector<int>{2 * f + 1, 2 * f};
+        bool check = (q.a[3] & 2) != 0;
+        w_add_cell(r, hfs, check, true, !check || surface_closed(r, hfs));
+        st.add("probe_pillow_cell");
+    }
     void op_add_poly(R &r, const Op &q, int t) {
         const PolyTemplate &T = poly_template(t);
         if (KID == 1 && t != 0) return;
@@ -672,6 +692,7 @@ template <class Mesh> struct HistRun {
         else if (k == "ADD_HEX") op_add_poly(r, q, 1);
         else if (k == "ADD_PRISM") op_add_poly(r, q, 2);
         else if (k == "ADD_PYR") op_add_poly(r, q, 3);
+        else if (k == "ADD_PILLOW") op_add_pillow(r, q);
         else if (k == "BAD_FACE" || k == "BAD_CELL") op_bad(r, q);
         else if (k == "DEL_V") op_delete(r, q, BV);
         else if (k == "DEL_E") op_delete(r, q, BE);
